@@ -146,11 +146,13 @@ func r083(c *Ctx) {
 	}
 	c.ob(rule, "respondWithErrorPage/arguments-only-to-html-template-Execute", rwp.Pos(), okR && nUse >= 1, true, "template arguments may reach the client only as the data argument of html/template's Execute")
 	// the fallback body contains nothing but status code and status text
-	wet := c.method("ErrorPageMiddleware", "writeErrorWithoutTemplate")
+	// (the page helpers of the reference tree, getTemplate and writeErrorWithoutTemplate, are de-anchored: always expanded
+	// into respondWithErrorPage)
+	wet := rwp
 	okF := true
 	for _, cs := range callsToName(wet, "fmt.Fprintf") {
 		for _, e := range varargElems(cs.common().Args[len(cs.common().Args)-1]) {
-			src := stripConv(e)
+			src := resolve(stripConv(e))
 			if src == ssa.Value(wet.Params[2]) {
 				continue
 			}
@@ -325,35 +327,60 @@ func r084(c *Ctx, rule string) {
 		}
 	}
 	c.ob(rule, "ServeHTTP/reuses-enclosing-error-record", serve.Pos(), shares, true, "a nested layer must reuse the error record found in the request context (else the root never sees an unhandled status)")
-	// writeErrorWithoutTemplate: true only when root
-	wet := c.method("ErrorPageMiddleware", "writeErrorWithoutTemplate")
-	okW := true
-	for _, ret := range normalReturns(wet) {
-		b, isC := constBool(retVal(ret, 0))
+	// the result of respondWithErrorPage: a rendered page => true; no page (template missing, or rendering failed) =>
+	// true exactly at the root layer, which prints the plain fallback; a nested layer must report 'not handled'
+	gt := rwp
+	var lookups, execErrs []ssa.Value
+	for _, cs := range callsIn(rwp) {
+		switch calleeName(cs.common()) {
+		case "(*html/template.Template).Lookup":
+			if v, ok := cs.instr.(ssa.Value); ok {
+				lookups = append(lookups, v)
+			}
+		case "(*html/template.Template).Execute":
+			if v, ok := cs.instr.(ssa.Value); ok {
+				execErrs = append(execErrs, v)
+			}
+		}
+	}
+	okW, okG, nFallback := true, false, 0
+	for _, rc := range retCases(rwp) {
+		b, isC := constBool(rc.vals[0])
 		if !isC {
 			okW = false
 			continue
 		}
-		isRoot, notRoot := boolFacts(ret, matchFieldLoad(rootF))
-		if b && !isRoot || !b && !notRoot {
-			okW = false
-		}
-	}
-	c.ob(rule, "writeErrorWithoutTemplate/handled-iff-root", wet.Pos(), okW, true, "without a template only the root layer answers; a nested layer must report 'not handled'")
-	// respondWithErrorPage: missing template => result of writeErrorWithoutTemplate; success => true
-	gt := c.method("ErrorPageMiddleware", "getTemplate")
-	okG := false
-	for _, cs := range callsTo(rwp, gt) {
-		tv := cs.instr.(*ssa.Call)
-		for _, ret := range normalReturns(rwp) {
-			if isNil, _ := nilKnowledge(ret, sameAs(tv)); isNil {
-				if call, ok := retVal(ret, 0).(*ssa.Call); ok && isCallTo(call.Common(), wet) {
-					okG = true
+		// is this a way out without a rendered page?
+		fallback := false
+		for _, ce := range rc.conds {
+			cm, ok := ce.asCmp()
+			if !ok || !isNilConst(cm.y) {
+				continue
+			}
+			if cm.op == token.EQL && strings.HasSuffix(typeString(cm.x.Type()), "template.Template") {
+				fallback = true // no template set / no page for this status
+				okG = true
+			}
+			if cm.op == token.NEQ && isErrorType(cm.x.Type()) {
+				for _, e := range execErrs {
+					if cm.x == e {
+						fallback = true // rendering failed
+					}
 				}
 			}
 		}
+		isRoot, notRoot := boolFactsOf(rc.conds, matchFieldLoad(rootF))
+		if fallback {
+			nFallback++
+			if b && !isRoot || !b && !notRoot {
+				okW = false
+			}
+		} else if !b {
+			okW = false
+		}
 	}
-	c.ob(rule, "respondWithErrorPage/missing-page-falls-through", rwp.Pos(), okG, true, "")
+	c.ob(rule, "writeErrorWithoutTemplate/handled-iff-root", rwp.Pos(), okW && nFallback >= 2, true, "without a template only the root layer answers; a nested layer must report 'not handled'")
+	c.ob(rule, "respondWithErrorPage/missing-page-falls-through", rwp.Pos(), okG && len(lookups) >= 1, true, "")
 	// getTemplate looks up "<status>.html"
 	okL := false
 	for _, cs := range callsToName(gt, "fmt.Sprintf") {
